@@ -40,7 +40,7 @@ CLAIMED = {
   technique="path-sensitive SSA guard-dominance with critical-section scoping + interprocedural lock-state + registry comparison, custom checker",
   ref="DESIGN.md section 4 C10"),
  "C11": dict(
-  text="Static analysis: DoAckLock(lock,true) is reachable only at the two ack counters on paths that counted down to zero under the ack table's mutex (13 call sites classified); no SUCCED on the ack-pending arms; every mutation of a hold found by LockId (46 sites) follows the not-pending test; the failure arm's effect order (undo value, log release, remove, RESULT_ERROR after the mutex, wake) and no stale pending test after RemoveLock; Flush acknowledges only after both writes and fails queued requests on every error return; failure hand-overs present in HandleLock and the ack table; the all/majority formulas. Run-time ordering of flush, acks and replies is not decided, hence 'other'.",
+  text="Static analysis: DoAckLock(lock,true) is reachable only at the two ack counters on paths that counted down to zero under the ack table's mutex (13 call sites classified); no SUCCED on the ack-pending arms; every mutation of a hold found by LockId or taken as the manager's current hold by the unlock-first arm (46 sites) follows the not-pending test; the failure arm's effect order (undo value, log release, remove, RESULT_ERROR after the mutex, wake) and no stale pending test after RemoveLock; Flush acknowledges only after both writes and fails queued requests on every error return; failure hand-overs present in HandleLock and the ack table; the all/majority formulas. Run-time ordering of flush, acks and replies is not decided, hence 'other'.",
   note="Trusted: Go type checker, go/ssa, the explorer and its branch history.",
   technique="path-sensitive SSA typestate/ordering analysis (count-to-zero guard, effect sequences on failure paths), custom checker",
   ref="DESIGN.md section 4 C11"),
